@@ -18,14 +18,14 @@ def isOk : Out → Bool
 
 /-! ### bank interface -/
 
-def Bank.credit (b : Bank) (who : String) (d : Str) (amt : Nat) : Bank :=
+def Bank.credit (b : Bank) (who : Holder) (d : Str) (amt : Nat) : Bank :=
   fun w d' => if w = who ∧ d' = d then b w d' + amt else b w d'
 
-def Bank.debit (b : Bank) (who : String) (d : Str) (amt : Nat) : Bank :=
+def Bank.debit (b : Bank) (who : Holder) (d : Str) (amt : Nat) : Bank :=
   fun w d' => if w = who ∧ d' = d then b w d' - amt else b w d'
 
 /-- `SendCoins` of one positive coin: fails without effect when the sender's balance is short -/
-def Bank.send (b : Bank) (src dst : String) (d : Str) (amt : Nat) : Option Bank :=
+def Bank.send (b : Bank) (src dst : Holder) (d : Str) (amt : Nat) : Option Bank :=
   if b src d < amt then none else some ((b.debit src d amt).credit dst d amt)
 
 /-- `sdk.ValidateDenom`: [a-zA-Z][a-zA-Z0-9/:._-]{2,127} -/
@@ -90,7 +90,7 @@ def depositPlan (s : State) (sender : String) (tenant : Nat) (amount : Option In
   check (validDenom denom && decide (0 < a))
   let t ← findTenant s.st.tenants tenant
   check (!t.mint)
-  let b ← s.bank.send acc (treasuryName tenant) denom a.toNat
+  let b ← s.bank.send (.acct acc) (treasuryName tenant) denom a.toNat
   pure (a.toNat, b)
 
 def deposit (s : State) (sender : String) (tenant : Nat) (amount : Option Int) (denom : Str) : SRes :=
@@ -283,9 +283,8 @@ def payRcpts (t : Tenant) (r : Rec) (fault : Option Nat) (n W : Nat) : List Reci
 
 /-- `tryPayout` on a cache context: nothing of a failed attempt survives except the consumed backend calls -/
 def tryPayout (t : Tenant) (r : Rec) (fault : Option Nat) (b : Bank) (calls : Nat) : PayOutcome :=
-  let vs := validRcpts r
-  if vs.isEmpty then .dropped
-  else payRcpts t r fault vs.length (weightSum vs) vs b calls []
+  if (validRcpts r).isEmpty then .dropped
+  else payRcpts t r fault (validRcpts r).length (weightSum (validRcpts r)) (validRcpts r) b calls []
 
 /-- the maturity test of `settleUTXRs`: `created + period` in uint64, a wrapped sum counts as not mature -/
 def mature (created period h : Nat) : Bool :=
